@@ -79,6 +79,11 @@ CHECKS = {
          "4 workspaces (single package, in-package tests, external tests, three packages) x {default, enable-all, two -go versions, 8 enable/disable list pairs with explicit -disable on both sides, every checker parameter at a non-default value} x go-critic, gocritic, go-critic-analysis, gocritic-analysis: diagnostics normalised to (file,line,col,checker,message) must be equal as sets and each printed exactly once. In-process: every checker registered for the CLI must be in the analyzer's registry snapshot (read through an overlay-added hook), and a quick fix (commentFormatting) must arrive as exactly one SuggestedFix with one TextEdit equal to From/To/Replacement.",
          "go-critic is the reference front-end. The missing rule-based checkers in the analyzer are one recorded finding (keyed by root cause), so any other disagreement still alarms.",
          "DESIGN.md section 3, C08"),
+ "C11": ("exploration",
+         "bounded-exhaustive enumeration of pattern syntax trees fed to the real simplifier; every proposed rewrite compared with the original on all subject strings up to a length under Go's regexp",
+         "About 440 000 patterns (42 atoms x 13 quantifiers, all concatenations of two quantified atoms, three over a reduced alphabet, alternations of 2-3 items bare/grouped/anchored/in context, grouping x quantifier over concatenations of <=2 atoms, adjacent identical groups; <=60 bytes, accepted by regexp.Compile) are analysed by the real checker; for each of the ~320 000 proposed rewrites the original and the rewrite are compiled with Go's regexp and compared on every subject string over the pattern's own characters plus {z, newline} up to length 4 (5 thorough): FindStringSubmatchIndex, NumSubexp and SubexpNames must agree. A failing pattern is shrunk (token deletion against the real checker) to a minimal pattern with the same failure and keyed by the wrong rewrite step.",
+         "Go's regexp is the reference semantics. Known findings are keyed by failure kind and recognised rewrite step (unrecognised steps keep their literal diff hunk as key, so they always alarm).",
+         "DESIGN.md section 3, C11"),
 }
 
 PENDING = {
